@@ -310,7 +310,8 @@ pub fn gen_history(
         let optional = !matches!(base, Ty::Opt(_)) && rng.chance(1, 5);
         HField { name: format!("f{counter}"), base, optional }
     };
-    let n_init = 1 + rng.below(4) as usize;
+    // scripts starting with 'W' use a wide initial record: made-optional positions far from 0
+    let n_init = if script.map(|s| s.starts_with('W')).unwrap_or(false) { 18 + rng.below(6) as usize } else { 1 + rng.below(4) as usize };
     let initial: Vec<HField> = (0..n_init).map(|_| fresh(rng)).collect();
     let mut h = History { id: id.to_string(), initial, steps: vec![] };
     if let Some(script) = script {
